@@ -27,8 +27,8 @@
      from_tuple1      same, :1030: the body of `From<(T,)>` against the variant declared `V((T,))`:
                       `Self::V(value)` since fix d9b019c (was `Self::V(value.0,)`, E0308); the
                       conjunct is parametric in that switch and holds for every space now
-     default_tuple1   value.rs:231,306,337: the DEFAULT of a one-element tuple variant is still
-                      rendered `E::V(x)` for `V((T,))`                                 (E0308)
+     default_tuple1   value.rs:231,306,337 + variant_tuple: the DEFAULT of a one-element tuple variant is
+                      `E::V((x,))` since fix 15ce314 (was `E::V(x)`, E0308); parametric in that switch
      deref_cycle      output_newtype: `impl Deref`, `impl From<Newtype> for Inner`; a cycle through
                       newtype -> inner and Box -> target edges gives `From<A> for Box<A>` (E0119)
                       and unbounded auto-deref (E0055)
@@ -459,33 +459,86 @@ Definition serde_default_det (T : space) (d : details) : bool :=
 Definition serde_default_ok (T : space) : bool := forallb (serde_default_det T) (named_dets T).
 
 (* ------------------------------------------------------------------ (e) default expressions *)
-Definition prop_default_ok (T : space) (p : prop) : bool :=
+(* does expression node `EVarTuple ty var _` construct a variant whose payload is a one-element tuple? *)
+Definition tuple1_variant (T : space) (ty var : ustring) : bool :=
+  match Value.find_named T ty with
+  | Some (DEnum _ _ _ vs _ _) =>
+      match Value.find_variant_ident var vs with
+      | Some vr => match v_det vr with VTuple [_] => true | _ => false end
+      | None => false
+      end
+  | _ => false
+  end.
+
+(* value.rs variant_tuple (fix 15ce314 = patches/C06-7.diff): a one-element tuple variant is built
+   `E::V((x,))`.  [wrap1] applies that helper to an expression rendered by the pre-fix model
+   `E::V(x)`, so that the conjunct does not depend on when C06's rendering model follows the fix. *)
+Fixpoint wrap1 (T : space) (e : Value.expr) {struct e} : Value.expr :=
+  let mapl := fix go (es : list Value.expr) : list Value.expr :=
+      match es with [] => [] | x :: r => wrap1 T x :: go r end in
+  let mapf := fix go (fs : list (Value.fname * Value.expr)) : list (Value.fname * Value.expr) :=
+      match fs with [] => [] | (n, x) :: r => (n, wrap1 T x) :: go r end in
+  match e with
+  | Value.ESome x => Value.ESome (wrap1 T x)
+  | Value.EBox x => Value.EBox (wrap1 T x)
+  | Value.EVec es => Value.EVec (mapl es)
+  | Value.ETuple es => Value.ETuple (mapl es)
+  | Value.EArray es => Value.EArray (mapl es)
+  | Value.EMap kvs =>
+      Value.EMap ((fix go (kvs : list (Value.expr * Value.expr)) : list (Value.expr * Value.expr) :=
+                     match kvs with [] => [] | (a, b) :: r => (wrap1 T a, wrap1 T b) :: go r end) kvs)
+  | Value.EStruct n fs => Value.EStruct n (mapf fs)
+  | Value.EVarStruct ty var fs => Value.EVarStruct ty var (mapf fs)
+  | Value.ECtor n es => Value.ECtor n (mapl es)
+  | Value.EVarTuple ty var es =>
+      if tuple1_variant T ty var then Value.EVarTuple ty var [Value.ETuple (mapl es)]
+      else Value.EVarTuple ty var (mapl es)
+  | other => other
+  end.
+
+(* the code as it is now: value.rs uses variant_tuple (fix 15ce314) *)
+Definition default_variant_fixed : bool := true.
+
+Definition default_typed_cfg (fixed : bool) (T : space) (e : Value.expr) (t : id) : bool :=
+  Value.expr_typed T (fuel_of T) e t || (fixed && Value.expr_typed T (fuel_of T) (wrap1 T e) t).
+
+Definition prop_default_ok_cfg (fixed : bool) (T : space) (p : prop) : bool :=
   match p_state p with
   | PDefault v =>
       match Value.render_prop_default T (fuel_of T) (p_ty p) v with
       | Defaults.ROk None => true
-      | Defaults.ROk (Some e) => Value.expr_typed T (fuel_of T) e (p_ty p)
+      | Defaults.ROk (Some e) => default_typed_cfg fixed T e (p_ty p)
       | _ => false
       end
   | _ => true
   end.
 
+Definition prop_default_ok (T : space) (p : prop) : bool := prop_default_ok_cfg default_variant_fixed T p.
+
 Definition defaults_ok (T : space) : bool :=
   forallb (fun d => forallb (fun np => forallb (prop_default_ok T) (snd np)) (props_of_det d)) (named_dets T).
 
-(* value.rs:231-234, 306-309, 337-340: the default of a Tuple(types) variant is rendered
-   `E::V(e1, .., en)`; for a one-element tuple the variant is declared `V((T,))`, so `E::V(e1)` is
-   ill typed (C06's expr_typed follows the IR, not the declaration, and accepts it).  (E0308) *)
-Definition tuple1_variant_expr (T : space) (e : Value.expr) : bool :=
+(* value.rs:231-234, 306-309, 337-340: the default of a Tuple(types) variant.  Before fix 15ce314 it
+   was rendered `E::V(e1, .., en)` for every arity, ill typed for the one-element tuple declared
+   `V((T,))` (E0308, finding C01-16 = C06-F13); since the fix `variant_tuple` passes the tuple
+   itself.  The argument / field shapes are those of the `From` body: [from_body_args]. *)
+Definition variant_payload (T : space) (ty var : ustring) : option (list id) :=
+  match Value.find_named T ty with
+  | Some (DEnum _ _ _ vs _ _) =>
+      match Value.find_variant_ident var vs with
+      | Some vr => match v_det vr with VTuple ts => Some ts | _ => None end
+      | None => None
+      end
+  | _ => None
+  end.
+
+Definition tuple1_variant_expr_cfg (fixed : bool) (T : space) (e : Value.expr) : bool :=
+  (* true = an ill-shaped construction of a tuple variant *)
   match e with
   | Value.EVarTuple ty var _ =>
-      match Value.find_named T ty with
-      | Some (DEnum _ _ _ vs _ _) =>
-          match Value.find_variant_ident var vs with
-          | Some vr => match v_det vr with VTuple [_] => true | _ => false end
-          | None => false
-          end
-      | _ => false
+      match variant_payload T ty var with
+      | Some ts => negb (ftys_eqb (from_body_args fixed ts) (declared_fields ts))
+      | None => false
       end
   | _ => false
   end.
@@ -509,9 +562,11 @@ Definition rendered_defaults (T : space) (d : details) : list Value.expr :=
   | _ => []
   end.
 
-Definition default_tuple1_ok (T : space) : bool :=
-  forallb (fun d => forallb (fun e => negb (Value.expr_any (tuple1_variant_expr T) e)) (rendered_defaults T d))
+Definition default_tuple1_ok_cfg (fixed : bool) (T : space) : bool :=
+  forallb (fun d => forallb (fun e => negb (Value.expr_any (tuple1_variant_expr_cfg fixed T) e)) (rendered_defaults T d))
           (named_dets T).
+
+Definition default_tuple1_ok (T : space) : bool := default_tuple1_ok_cfg default_variant_fixed T.
 
 (* ------------------------------------------------------------------ prelude capture *)
 Definition has_item (T : space) (n : string) : bool := mem_ustr (us n) (item_names T).
